@@ -19,12 +19,13 @@ def rid(i):
 
 
 def idx(revid):
-    """b"r12" -> 12, b"null:" -> None."""
+    """b"r12" -> 12, b"r12.3" -> 12 (3rd re-creation of revision 12 in a reused repository),
+    b"null:" -> None."""
     if revid in (b"null:", None):
         return None
     if not revid.startswith(b"r"):
         raise ValueError("foreign revision id %r" % (revid,))
-    return int(revid[1:])
+    return int(revid[1:].split(b".")[0])
 
 
 # ---- reference graph functions (oracle vocabulary) -------------------------
@@ -134,15 +135,21 @@ def build_history(g, transport, with_file=True, extra=None):
             acts = [("add", ("", b"root-id", "directory", None))]
             if with_file:
                 acts.append(("add", ("f", b"f-id", "file", b"0\n")))
-            if ps:
-                # left-hand ghost: the builder cannot move the branch onto a ghost
-                br.lock_write()
-                try:
-                    br.set_last_revision_info(0, b"null:")
-                finally:
-                    br.unlock()
         else:
             acts = [("modify", ("f", b"%d\n" % i))] if with_file else []
+        if ps:
+            # Put the branch on the left-hand parent ourselves: BranchBuilder cannot move
+            # the pointer onto a revision with a ghost on its left-hand history (nor onto a
+            # ghost: then the branch must be empty).  The revno is a placeholder; callers
+            # set branch tips themselves.
+            br.lock_write()
+            try:
+                if ps[0] >= n:
+                    br.set_last_revision_info(0, b"null:")
+                else:
+                    br.set_last_revision_info(len([x for x in lefthand(g, ps[0]) if x < n]), rid(ps[0]))
+            finally:
+                br.unlock()
         if extra and i in extra:
             acts = acts + list(extra[i])
         bb.build_snapshot(pids, acts, revision_id=rid(i), allow_leftmost_as_ghost=True)
